@@ -1212,8 +1212,8 @@ func (j *judgeCtx) checkOutcomes() {
 				j.add("C07.a", c.Ret, "job %d: %s() error = %q, want %q", s.N, c.Str, c.Err, expectedErrText(s.N))
 			}
 		default:
-			if !strings.Contains(c.Err, expectedPanicText(s.N)) {
-				j.add("C07.a", c.Ret, "job %d panicked with %q but %s() error = %q", s.N, expectedPanicText(s.N), c.Str, c.Err)
+			if !panicMatches(s, c.Err) {
+				j.add("C07.a", c.Ret, "job %d panicked (outcome kind %d, text %q for string/error panics) but %s() error = %q", s.N, s.Outcome, expectedPanicText(s.N), c.Str, c.Err)
 			}
 		}
 	}
@@ -1292,7 +1292,7 @@ func (j *judgeCtx) checkOutcomes() {
 			if len(s.Entries) == 0 {
 				continue
 			}
-			if (s.Outcome == 1 && e == expectedErrText(s.N)) || (s.Outcome >= 2 && strings.Contains(e, expectedPanicText(s.N))) {
+			if (s.Outcome == 1 && e == expectedErrText(s.N)) || (s.Outcome >= 2 && panicMatches(s, e)) {
 				okk = true
 			}
 		}
@@ -1396,34 +1396,48 @@ func (j *judgeCtx) checkBatches() {
 				case 1:
 					return g.Err == expectedErrText(hit.N)
 				default:
-					return strings.Contains(g.Err, expectedPanicText(hit.N))
+					return panicMatches(hit, g.Err)
 				}
 			}
-			for _, g := range b.got {
-				// items are identified by their tag; several items may legitimately share
-				// one (no Item.ID, no generator): match each result to an unmatched item
-				// with that tag whose outcome it carries
-				var hit *Sub
-				tagged := 0
-				for _, x := range b.subs {
-					s := wd.subs[x]
-					if len(s.Entries) == 0 || g.JobID != s.IDSeen {
+			// items are identified by their tag; several items may legitimately share
+			// one (no Item.ID, no generator): match each result to an unmatched item
+			// with that tag whose outcome it carries. Outcomes with an exact text first,
+			// then the panics of which only "some error" is known.
+			matched := make([]bool, len(b.got))
+			for pass := 0; pass < 2; pass++ {
+				for gi, g := range b.got {
+					if matched[gi] {
 						continue
 					}
-					tagged++
-					if seen[s.N] == 0 && hit == nil && matches(s, g) {
-						hit = s
+					var hit *Sub
+					tagged := 0
+					for _, x := range b.subs {
+						s := wd.subs[x]
+						if len(s.Entries) == 0 || g.JobID != s.IDSeen {
+							continue
+						}
+						tagged++
+						if (s.Outcome >= 4) != (pass == 1) {
+							continue
+						}
+						if seen[s.N] == 0 && hit == nil && matches(s, g) {
+							hit = s
+						}
 					}
-				}
-				if tagged == 0 {
-					j.add("C08.a", g.Seq, "batch %d stream delivered a result tagged %q that matches no executed item", b.idx, g.JobID)
-					continue
-				}
-				if hit == nil {
+					if hit != nil {
+						seen[hit.N]++
+						matched[gi] = true
+						continue
+					}
+					if pass == 0 {
+						continue
+					}
+					if tagged == 0 {
+						j.add("C08.a", g.Seq, "batch %d stream delivered a result tagged %q that matches no executed item", b.idx, g.JobID)
+						continue
+					}
 					j.add("C08.a", g.Seq, "batch %d stream delivered (%d, %q) tagged %q: no executed, not yet delivered item with that tag has this outcome (duplicate delivery or wrong value)", b.idx, g.Data, g.Err, g.JobID)
-					continue
 				}
-				seen[hit.N]++
 			}
 			for x := range want {
 				if seen[x] == 0 {
